@@ -14,6 +14,7 @@ import json
 import operator
 import os
 import random
+import re
 import shutil
 import struct
 import sys
@@ -64,8 +65,15 @@ THEOREMS = ["consts_documented", "sv_table_ok", "boot_sequence", "unswap_concat"
 RULE = ("STREAM histories: 1-6 boot() calls from freshly loaded struct_file/boot modules: hosts, ports (default, 0, 1, "
         "65535, random), delays (defaults, 0, 0.0, given), keyword and positional convention, file names as str / "
         "bytes / pathlib, through boot.boot or MachineController.boot (plain / subclass / structs= given / deprecated "
-        "width,height), images = bundled scamp.boot or random bytes (every block count 1..32 in the thorough tier, "
-        "block edges, out-of-domain short / unaligned / oversize), struct file = bundled sark.struct or a synthetic "
+        "width,height), images = bundled scamp.boot, random bytes, or (about half) STRUCTURED content built block by "
+        "block from content classes - whole-block byte palindromes (full and short final block), word palindromes "
+        "(blocks equal to their own swap), periodic with periods 1,2,3,4,8, repeated halves, all-0x00 / all-0xFF, "
+        "equal to / the word swap of the previous block, zero head / zero tail - under image templates (mixed, blank "
+        "first / middle / LAST block(s), all blocks equal, all zero, all 0xFF, all palindromes, palindromic last "
+        "block, one class throughout); every block count 1..32 with random AND structured content in the thorough "
+        "tier, block edges, out-of-domain short / unaligned / oversize; the widened search after a broken "
+        "obligation draws from the same classes; evidence counts templates and per-block classes "
+        "(content_template_*, content_block_*, content_last_block_*); struct file = bundled sark.struct or a synthetic "
         "layout (well-formed, overlapping, overflowing, unpackable; bases and other structs differ), options = none "
         "/ board preset / any field via keywords, via a fresh sv_overrides mapping (dict, OrderedDict, defaultdict, "
         "dict subclass), via a caller mapping reused across calls, via both incl. the same variable in both; values "
@@ -77,6 +85,15 @@ RULE = ("STREAM histories: 1-6 boot() calls from freshly loaded struct_file/boot
         "(set / del / clear) and edits results it was given; every result of boot() is KEPT, must not share mutable "
         "objects with another result, and is re-read, re-packed (Struct.pack) and re-judged by the Lean predicates "
         "returnedOK / configOK after every later boot and step. Each call runs under a CPU limit (did-not-return). "
+        "The FILE SYSTEM is part of the history (half of the histories): later boots name a path an earlier boot "
+        "used after the caller replaced the file or rewrote it in place with new content of the SAME or another "
+        "length (mtime kept or changed) or left it alone, other paths hold equal content, names relative or "
+        "absolute, struct files share paths too; the image a boot must send is what its file holds when that boot "
+        "is called (fs_* tags). STREAM interleaved: boot A with a complete boot B of another board run as a nested "
+        "call from A's k-th mock send / patched sleep (before start, before the first / between / before the last "
+        "block, before end, after end), optionally followed by a sequential boot; each board's datagram stream is "
+        "judged separately by the same Lean predicate; as the property speaks of SEQUENCES of boots these findings "
+        "carry their own keys (<key>-interleaved). "
         "STREAM twins: two boots equal in all but one aspect (one option value / added / zero, host, port, one image "
         "byte, clock, keyword-vs-mapping delivery, one layout default, layout base, delay, function-vs-controller) as "
         "[A,B] and [B,A]. STREAM scale: a 400-field struct with a 65,537-element array field and 3,000 comment "
@@ -118,14 +135,108 @@ def image_bytes(spec):
     if spec["kind"] == "default":
         default_table()
         return _cache["image"]
-    b = random.Random(spec["seed"]).randbytes(spec["len"])
+    if spec["kind"] == "blocks":
+        b = structured_image(spec)
+    else:
+        b = random.Random(spec["seed"]).randbytes(spec["len"])
     if spec.get("flip") is not None and b:           # a twin image: one byte differs
         i = spec["flip"] % len(b)
         b = b[:i] + bytes([b[i] ^ 0x5a]) + b[i + 1:]
     return b
 
 
+BLOCK_CLASSES = ["random", "palindrome", "word_palindrome", "period1", "period2", "period3", "period4", "period8",
+                 "repeat_half", "zero", "ff", "same_as_prev", "swap_of_prev", "zero_tail", "zero_head"]
+IMAGE_TEMPLATES = ["mixed", "mixed", "mixed", "blank_last", "blank_last2", "blank_first", "blank_middle",
+                   "all_equal", "all_zero", "all_ff", "all_palindrome", "last_palindrome", "uniform_class"]
+
+
+def block_bytes(cls, n, rnd, prev):
+    """one block of n bytes (n may be short / not a word multiple for out-of-domain images) of a content class"""
+    if cls == "palindrome":                    # reads the same from both ends as a WHOLE (words are not symmetric)
+        h = rnd.randbytes((n + 1) // 2)
+        return (h + h[::-1][n % 2:])[:n]
+    if cls == "word_palindrome":               # every word equals its own byte swap
+        out = b"".join((lambda w: w + w[::-1])(rnd.randbytes(2)) for _ in range(n // 4 + 1))
+        return out[:n]
+    if cls.startswith("period"):
+        p = rnd.randbytes(int(cls[6:]))
+        return (p * (n // len(p) + 1))[:n]
+    if cls == "repeat_half":
+        h = rnd.randbytes((n + 1) // 2)
+        return (h + h)[:n]
+    if cls == "zero":
+        return bytes(n)
+    if cls == "ff":
+        return b"\xff" * n
+    if cls == "same_as_prev" and prev:
+        return (prev * 2)[:n]
+    if cls == "swap_of_prev" and prev:
+        sw = b"".join(prev[i:i + 4][::-1] for i in range(0, len(prev), 4))
+        return (sw * 2)[:n]
+    if cls == "zero_tail":                     # code followed by zero words inside the block
+        k = rnd.randrange(0, n + 1)
+        return rnd.randbytes(k) + bytes(n - k)
+    if cls == "zero_head":
+        k = rnd.randrange(0, n + 1)
+        return bytes(k) + rnd.randbytes(n - k)
+    return rnd.randbytes(n)
+
+
+def structured_image(spec):
+    rnd = random.Random(spec["seed"])
+    out, prev = [], b""
+    n = spec["len"]
+    for i, cls in enumerate(spec["classes"]):
+        ln = min(1024, n - 1024 * i)
+        prev = block_bytes(cls, ln, rnd, prev)
+        out.append(prev)
+    return b"".join(out)
+
+
+def gen_block_classes(rng, n):
+    """content classes of the ceil(n/1024) blocks of a structured image (by template)"""
+    k = max(1, (n + 1023) // 1024)
+    t = rng.choice(IMAGE_TEMPLATES)
+    cl = [rng.choice(BLOCK_CLASSES) for _ in range(k)]
+    if t == "blank_last":
+        cl[-1] = "zero"
+    elif t == "blank_last2":
+        for i in range(max(0, k - rng.choice([2, 3])), k):
+            cl[i] = "zero"
+    elif t == "blank_first":
+        cl[0] = "zero"
+    elif t == "blank_middle" and k >= 3:
+        cl[rng.randrange(1, k - 1)] = rng.choice(["zero", "ff"])
+    elif t == "all_equal":
+        cl = [rng.choice(["random", "palindrome", "period3"])] + ["same_as_prev"] * (k - 1)
+    elif t == "all_zero":
+        cl = ["zero"] * k
+    elif t == "all_ff":
+        cl = ["ff"] * k
+    elif t == "all_palindrome":
+        cl = ["palindrome"] * k
+    elif t == "last_palindrome":
+        cl[-1] = "palindrome"
+    elif t == "uniform_class":
+        cl = [rng.choice(BLOCK_CLASSES)] * k
+    return t, cl
+
+
+def structured(rng, n):
+    t, cl = gen_block_classes(rng, n)
+    return {"kind": "blocks", "len": n, "seed": rng.randrange(2 ** 30), "template": t, "classes": cl}
+
+
 def gen_image(rng, force_len=None):
+    img = gen_image_plain(rng, force_len)
+    # image CONTENT is a generator dimension of its own: about half of the generated images are structured
+    if img["kind"] == "rand" and rng.random() < 0.5:
+        return structured(rng, img["len"])
+    return img
+
+
+def gen_image_plain(rng, force_len=None):
     if force_len is not None:
         return {"kind": "rand", "len": force_len, "seed": rng.randrange(2 ** 30)}
     r = rng.random()
@@ -369,7 +480,98 @@ def gen_history(rng, force_len=None):
         c["after"] = gen_steps(rng, i, n_calls, tab, store)
         calls.append(c)
     kinds = [rng.choice(["dict"] * 3 + ["ordered", "subclass", "defaultdict"]) for _ in store]
+    if rng.random() < 0.5:
+        file_system_history(rng, calls)
     return {"store": store, "store_kinds": kinds, "calls": calls}
+
+
+def same_length_variant(rng, img):
+    """another image of exactly the same length"""
+    n = img["len"]
+    return structured(rng, n) if rng.random() < 0.5 else {"kind": "rand", "len": n, "seed": rng.randrange(2 ** 30)}
+
+
+def file_system_history(rng, calls):
+    """The FILE SYSTEM is part of the history: later boots name a path an earlier boot used, after the caller
+    replaced the file / rewrote it in place (same length or another length, mtime kept or not) or left it alone;
+    other paths hold equal content; relative and absolute names.  The image a boot must send is what the file
+    holds when that boot is called (`image` of the call always says what that is)."""
+    held = {}                                   # path label -> image spec currently in the file
+    sheld = set()
+    for c in calls:
+        if c["table"] is not None and rng.random() < 0.6:
+            c["sfile"] = rng.choice(["S", "T"])      # struct files share paths too (always rewritten)
+            c["sclass"] = "path_reused" if c["sfile"] in sheld else "first_use"
+            sheld.add(c["sfile"])
+        if c["image"]["kind"] == "default":
+            continue
+        label = rng.choice(["A", "A", "B"])
+        f = {"path": label, "write": rng.choice(["replace", "replace", "inplace"]),
+             "mtime": rng.choice(["change", "keep"]), "rel": rng.random() < 0.2}
+        if label not in held:
+            other = [v for k, v in held.items() if k != label]
+            if other and rng.random() < 0.3:
+                c["image"] = json.loads(json.dumps(rng.choice(other)))
+                f["class"] = "other_path_equal_content"
+            else:
+                f["class"] = "first_use"
+        else:
+            r = rng.random()
+            if r < 0.25:
+                c["image"] = json.loads(json.dumps(held[label]))
+                f["write"] = "keep"
+                f["class"] = "left_alone"
+            elif r < 0.7 and held[label].get("len") is not None:
+                c["image"] = same_length_variant(rng, held[label])
+                f["class"] = "new_content_same_length"
+            else:
+                f["class"] = "new_content" + ("_same_length" if c["image"].get("len") == held[label].get("len") else "_other_length")
+        held[label] = c["image"]
+        c["file"] = f
+
+
+def gen_interleaved(rng):
+    """boot A (2-6 blocks) with a complete boot B of another board run as a nested call at A's k-th send or k-th
+    sleep (before start, between blocks, before end, after end), optionally followed by a sequential boot"""
+    default_table()
+    presets = _cache["presets"]
+
+    def one(host):
+        n = 4 * rng.randrange(256, 1600)
+        tab = None if rng.random() < 0.7 else gen_table_wf(rng)
+        if tab is default_table():
+            tab = None
+        c = {"host": host, "port": rng.choice([None, None, 40000 + rng.randrange(100)]),
+             "image": structured(rng, n) if rng.random() < 0.5 else {"kind": "rand", "len": n, "seed": rng.randrange(2 ** 30)},
+             "table": tab, "sv": None, "via": "function", "t1": 1443571200 + rng.randrange(1000), "after": [],
+             "kwargs": (gen_opts(rng, tab or default_table(), False) if rng.random() < 0.6 else
+                        [list(p) for p in presets[rng.randrange(len(presets))][1]] if tab is None else [])}
+        c["t2"] = c["t1"] + rng.choice([0, 1])
+        c["delays"] = rng.choice([[BOOT_DELAY, POST_DELAY], [0, 0], [None, None]])
+        if rng.random() < 0.3:
+            c["file"] = {"path": "A", "write": "replace", "mtime": "change", "rel": False, "class": "shared_by_interleaved"}
+        return c
+    a, b = one("board-a"), one("board-b")
+    if rng.random() < 0.25:
+        a["host"] = b["host"] = "127.0.0.6"
+        b["via"] = "controller"
+    if rng.random() < 0.3:
+        b["image"] = same_length_variant(rng, a["image"])
+    n = (a["image"]["len"] + 1023) // 1024
+    where = rng.choice(["send", "sleep"])
+    if where == "send":          # send 0 = start, 1..n = blocks, n+1 = end
+        at, point = rng.choice([(0, "before_start"), (1, "before_first_block"), (rng.randrange(1, n + 1), "between_blocks"),
+                                (n, "before_last_block"), (n + 1, "before_end")])
+    else:                        # sleep 0 follows start, sleep j follows block j-1, sleep n+1 is the post-boot sleep
+        at, point = rng.choice([(0, "after_start"), (rng.randrange(1, n + 1), "between_blocks"), (n, "before_end"),
+                                (n + 1, "after_end")])
+    b["inside"] = {"of": 0, "where": where, "at": at, "point": point}
+    calls = [a, b]
+    if rng.random() < 0.4:
+        calls.append(one("board-c"))
+    for c in calls:
+        c.pop("file", None) if c["image"]["kind"] == "default" else None
+    return {"store": [], "calls": calls, "interleaved": point}
 
 
 def gen_steps(rng, i, n_calls, tab, store=()):
@@ -415,6 +617,7 @@ class FakeSock(object):
         self.log.append(["connect", str(addr[0]), int(addr[1])] + ([] if self.udp else ["not-udp"]))
 
     def send(self, data):
+        self.mod.fire("send", self.log)
         f = self.mod.fault
         if f and f["kind"] == "send":
             if self.mod.sends == f["n"]:
@@ -449,6 +652,16 @@ class FakeSocketModule(object):
         self.AF_INET, self.SOCK_DGRAM = real.AF_INET, real.SOCK_DGRAM
         self.error, self.timeout = real.error, real.timeout
         self.fault, self.sends = None, 0
+        self.hook = None        # {"where", "at", "log", "count", "fn"}: run fn() at the at-th send / sleep of that boot
+
+    def fire(self, where, log):
+        h = self.hook
+        if h and h["where"] == where and h["log"] is log:
+            if h["count"] == h["at"]:
+                self.hook = None
+                h["fn"]()
+            else:
+                h["count"] += 1
 
     def socket(self, family=None, kind=None, *a):
         return FakeSock(self.log, family == self.real.AF_INET and kind == self.real.SOCK_DGRAM, self)
@@ -458,14 +671,16 @@ class FakeSocketModule(object):
 
 
 class FakeTime(object):
-    def __init__(self, log):
-        self.log, self.script = log, []
+    def __init__(self, log, mod=None):
+        self.log, self.script, self.mod = log, [], mod
 
     def time(self):
         v = self.script.pop(0) if len(self.script) > 1 else self.script[0]
         return float(v) + 0.5
 
     def sleep(self, x):
+        if self.mod is not None:
+            self.mod.fire("sleep", self.log)
         if len(self.log) < MAX_EVENTS:
             self.log.append(["sleep", x if isinstance(x, (int, float)) and not isinstance(x, bool) else repr(x)])
 
@@ -561,6 +776,14 @@ def classify(e):
 _HANGS = [0]
 
 
+class _NoLimit(object):
+    def __enter__(self):
+        return self
+
+    def __exit__(self, *a):
+        return False
+
+
 def hang_limit():
     """CPU seconds one implementation call may take: a boot takes 5-30 ms, so 5 s is > 100x; lowered after a
     few calls did not return so that the run stays short (the run stops generating after 20 such calls)"""
@@ -596,9 +819,10 @@ def run_impl(case):
     importlib.reload(sf_mod)            # fresh function objects = fresh process state
     importlib.reload(boot_mod)
     log = []
-    ftime = FakeTime(log)
     real_socket, real_time = boot_mod.socket, boot_mod.time
-    boot_mod.socket, boot_mod.time = FakeSocketModule(log), ftime
+    boot_mod.socket = FakeSocketModule(log)
+    ftime = FakeTime(log, boot_mod.socket)
+    boot_mod.time = ftime
     tmp = tempfile.mkdtemp(prefix="c20-")
     kinds = case.get("store_kinds") or ["dict"] * len(case["store"])
     store = [make_dict(kd, d) for kd, d in zip(kinds, case["store"])]
@@ -659,9 +883,44 @@ def run_impl(case):
             import pathlib
             return pathlib.Path(pth)
         return pth
-    try:
-        for i, c in enumerate(case["calls"]):
-            del log[:]
+    pending = {}
+
+    def write_file(p, content, how, keep_mtime):
+        old = os.stat(p) if os.path.exists(p) else None
+        if how == "inplace" and old is not None:
+            with open(p, "r+b") as fh:
+                fh.write(content)
+                fh.truncate()
+        elif how == "replace" and old is not None:
+            open(p + ".new", "wb").write(content)
+            os.replace(p + ".new", p)
+        else:
+            open(p, "wb").write(content)
+        if keep_mtime and old is not None:
+            os.utime(p, ns=(old.st_atime_ns, old.st_mtime_ns))
+
+    def image_path(i, c):
+        """the FILE SYSTEM is part of the history: a path named by several boots holds, for each boot, what the
+        caller last wrote there (replaced / rewritten in place / left alone; mtime kept or not)"""
+        f = c.get("file") or {}
+        p = os.path.join(tmp, "img_%s.bin" % f["path"] if f.get("path") else "img%d.bin" % i)
+        content = image_bytes(c["image"])
+        if not (f.get("write") == "keep" and os.path.exists(p) and open(p, "rb").read() == content):
+            write_file(p, content, f.get("write", "replace"), f.get("mtime") == "keep")
+        return os.path.relpath(p) if f.get("rel") else p
+
+    def perform(i, c, nested=False):
+        """one call of boot() with its own event log; returns its outcome"""
+        mylog = []
+        saved = (fsock.log, ftime.log, ftime.script)
+        fsock.log = ftime.log = mylog
+        try:
+            return perform_inner(i, c, nested, mylog)
+        finally:
+            fsock.log, ftime.log, ftime.script = saved
+
+    def perform_inner(i, c, nested, log):
+        if True:
             ftime.script = [c["t1"], c["t2"]]
             bd, pd = c.get("delays", [BOOT_DELAY, POST_DELAY])
             kw = {}
@@ -671,12 +930,10 @@ def run_impl(case):
                 kw["post_boot_delay"] = pd
             fault = c.get("fault")
             if c["image"]["kind"] != "default":
-                p = os.path.join(tmp, "img%d.bin" % i)
-                open(p, "wb").write(image_bytes(c["image"]))
-                kw["scamp_binary"] = conv_path(p, c.get("paths", "str"))
+                kw["scamp_binary"] = conv_path(image_path(i, c), c.get("paths", "str"))
             if c["table"] is not None:
-                p = os.path.join(tmp, "s%d.struct" % i)
-                open(p, "wb").write(struct_text(c["table"], random.Random(i)))
+                p = os.path.join(tmp, "s_%s.struct" % c["sfile"] if c.get("sfile") else "s%d.struct" % i)
+                write_file(p, struct_text(c["table"], random.Random(i)), "replace", False)
                 kw["sark_struct"] = conv_path(p, c.get("paths", "str"))
             if fault and fault["kind"] == "nofile":
                 kw["scamp_binary" if fault["which"] == "image" else "sark_struct"] = os.path.join(tmp, "missing-%d" % i)
@@ -689,7 +946,14 @@ def run_impl(case):
             try:
                 # every call of the model terminates (total Lean functions); a boot takes milliseconds: a call still
                 # running after 5 s of CPU time is reported as not having returned (1 s after 4 such calls)
-                with common.cpu_limit(hang_limit()):
+                nxt = case["calls"][i + 1] if i + 1 < len(case["calls"]) else None
+                if nxt is not None and (nxt.get("inside") or {}).get("of") == i and not nested:
+                    # an INTERLEAVED history: a complete boot of another board runs while this one is between two
+                    # datagrams (as a nested call from the patched sleep / the mock socket's send)
+                    ins = nxt["inside"]
+                    fsock.hook = {"where": ins["where"], "at": ins["at"], "log": log, "count": 0,
+                                  "fn": lambda: pending.__setitem__(i + 1, perform(i + 1, nxt, True))}
+                with (common.cpu_limit(hang_limit()) if not nested else _NoLimit()):
                     if c["via"] == "controller":
                         key = (c["host"], c["port"])
                         if key not in mcs:
@@ -734,8 +998,21 @@ def run_impl(case):
             except Exception as e:          # noqa
                 res, others, svmeta, extra, first = classify(e), None, None, [], {}
             fsock.fault = None
-            outcomes.append({"events": [list(x) for x in log] + extra, "result": res,
-                             "others": others, "svmeta": svmeta, "packed": first.get("packed")})
+            if not nested:
+                fsock.hook = None
+            return {"events": [list(x) for x in log] + extra, "result": res,
+                    "others": others, "svmeta": svmeta, "packed": first.get("packed")}
+
+    try:
+        for i, c in enumerate(case["calls"]):
+            if i in pending:
+                out = pending.pop(i)
+                out["nested"] = "ran_inside"
+            else:
+                out = perform(i, c)
+                if c.get("inside"):
+                    out["nested"] = "not_reached"
+            outcomes.append(out)
             recheck("call %d" % i)
             for n_step, st in enumerate(c.get("after", [])):
                 label = "step %d after call %d (%s)" % (n_step, i, st["do"])
@@ -921,6 +1198,10 @@ def evaluate(ctx, cases):
             ctx.traces += 1
             res = o["result"]
             kind = "ok" if "ok" in res else res["err"].split(":")[0]
+            if c["image"]["kind"] == "blocks":
+                r["tags"] += ["content_template_" + c["image"].get("template", "given")]
+                r["tags"] += ["content_block_" + x for x in c["image"]["classes"]]
+                r["tags"] += ["content_last_block_" + c["image"]["classes"][-1]]
             r["tags"] += ["result_" + kind, "via_" + c["via"], "image_" + c["image"]["kind"],
                           "table_" + ("default" if c["table"] is None else "synthetic"),
                           "opts_" + ("none" if not c["kwargs"] and c["sv"] is None else
@@ -932,6 +1213,14 @@ def evaluate(ctx, cases):
             r["tags"] += ["value_" + (v["k"] if isinstance(v, dict) else type(v).__name__)
                           for _, v in list(c["kwargs"]) + list(view["base"][k])]
             r["tags"] += ["value_big" for _, v in list(c["kwargs"]) + list(view["base"][k]) if abs(lean_value(v)) >= 2 ** 31]
+            if c.get("file"):
+                f = c["file"]
+                r["tags"] += ["fs_" + f.get("class", "given"), "fs_write_" + f.get("write", "replace"),
+                              "fs_mtime_" + f.get("mtime", "change")] + (["fs_relative_path"] if f.get("rel") else [])
+            if c.get("sfile"):
+                r["tags"].append("fs_struct_file_" + c.get("sclass", "given"))
+            if c.get("inside"):
+                r["tags"] += ["interleaved_" + c["inside"].get("point", "given"), "interleaved_" + o.get("nested", "given")]
             if c.get("mc"):
                 r["tags"] += ["mc_" + x for x in ("subclass", "structs") if c["mc"].get(x)] + (
                     ["mc_width"] if c["mc"].get("width") is not None else [])
@@ -984,6 +1273,22 @@ def evaluate(ctx, cases):
                         k, bad, own_opts(case, k, view))))
             elif sp and "ok" in res:
                 r["tags"].append("oracle_out_of_domain")
+        # ---- an interleaved pair is outside the property's "sequences of boots": its findings carry their own key
+        inter = set()
+        for k, c in enumerate(case["calls"]):
+            if c.get("inside") and outs[k].get("nested") == "ran_inside":
+                inter |= {k, c["inside"]["of"]}
+        if inter:
+            hi, lo = max(inter), min(inter)
+            note = " [boot %d ran as a nested call inside boot %d at its %s number %d]" % (
+                hi, lo, case["calls"][hi]["inside"]["where"], case["calls"][hi]["inside"]["at"])
+            new = []
+            for key, what in r["violations"]:
+                m = re.match(r"call (\d+)", what)
+                if m and int(m.group(1)) in inter:
+                    key, what = key + "-interleaved", what + note
+                new.append((key, what))
+            r["violations"] = new
         # ---- kept results: every returned dictionary re-read after every later boot / caller step
         r["tags"] += ["kept_results"] * kept["results"] + ["kept_rechecks"] * kept["rechecks"]
         for c in case["calls"]:
@@ -1110,6 +1415,11 @@ def drop_call(case, i):
         if k == i:
             continue
         c = dict(c)
+        if c.get("inside"):
+            if c["inside"]["of"] == i:
+                c.pop("inside")
+            elif c["inside"]["of"] > i:
+                c["inside"] = dict(c["inside"], of=c["inside"]["of"] - 1)
         steps = []
         for st in c.get("after", []):
             if st["do"] == "mutate":
@@ -1140,6 +1450,8 @@ def report(ctx, cases, reports, do_shrink=True):
             ctx.tag(t)
         if case.get("twin"):
             ctx.tag("twin_" + case["twin"])
+        if case.get("interleaved"):
+            ctx.tag("stream_interleaved")
         if case.get("scale"):
             ctx.tag("scale_" + case["scale"])
         for suite, detail in r["mismatches"]:
@@ -1206,7 +1518,16 @@ def fixed_cases():
     z1 = dict(base, host="a", kwargs=[["soft_wdog", 0], ["led0", 0], ["cpu_clk", 0]])
     z2 = dict(base, host="b", sv=0)
     z3 = dict(base, host="c", sv=1, kwargs=[["link_en", 0], ["num_buf", False]])
-    return [{"store": [], "calls": [a, b]}, {"store": [[["led1", 9]]], "calls": [c, d]},
+    # image content: code followed by blank blocks (full and short), whole-block palindromes (full and short final
+    # block), equal blocks, an all-zero image
+    def blk(n, classes):
+        return {"kind": "blocks", "len": n, "seed": 11, "template": "given", "classes": classes}
+    contents = [blk(3584, ["random", "random", "zero", "zero"]), blk(4096, ["random", "palindrome", "palindrome", "zero"]),
+                blk(2560, ["random", "period3", "palindrome"]), blk(3072, ["random", "same_as_prev", "swap_of_prev"]),
+                blk(2048, ["zero", "zero"]), blk(1536, ["ff", "ff"]), blk(2052, ["word_palindrome", "palindrome", "zero"])]
+    content_cases = [{"store": [], "calls": [dict(base, host="a", image=im, kwargs=[["hw_ver", 2]]), dict(base, host="b", image=im)]}
+                     for im in contents]
+    return content_cases + [{"store": [], "calls": [a, b]}, {"store": [[["led1", 9]]], "calls": [c, d]},
             {"store": [], "calls": [dict(base, host="a", image={"kind": "default"}, via="function")]},
             {"store": [], "calls": [e, f]}, {"store": [], "calls": [g, e, h, f]},
             {"store": [[["soft_wdog", 0], ["boot_delay", 0], ["led0", False]], [["link_en", 63], ["iobuf_size", 0]]],
@@ -1329,8 +1650,9 @@ def packet_stream(ctx, n):
         args = [rng.choice([0, 1, 255, (255 << 8) | rng.randrange(256), 2 ** 31, 2 ** 32 - 1, rng.randrange(2 ** 32)] +
                            ([rng.choice([-1] + BIG[3:])] if rng.random() < 0.06 else [])) for _ in range(3)]
         ln = rng.choice([0, 0, 4, 8, 1024, 1028, 4 * rng.randrange(300), rng.randrange(1, 40)])
-        data = rng.randbytes(ln)
-        case = {"cmd": cmd, "args": args, "data": data.hex(), "cmd_kind": rng.choice(["int", "enum", "np"]),
+        data_cls = rng.choice(["random", "random"] + BLOCK_CLASSES)
+        data = block_bytes(data_cls, ln, random.Random(rng.randrange(2 ** 30)), rng.randbytes(ln))
+        case = {"cmd": cmd, "args": args, "data": data.hex(), "content": data_cls, "cmd_kind": rng.choice(["int", "enum", "np"]),
                 "data_kind": rng.choice(["bytes", "bytes", "bytearray", "memoryview"]),
                 "style": rng.choice(["positional", "positional", "keyword", "keyword", "defaults"])}
         if case["style"] == "defaults":
@@ -1375,6 +1697,7 @@ def packet_eval(ctx, cases):
     for case, o, m in zip(cases, impl, reps):
         ctx.traces += 1
         ctx.tag("packet_" + ("ok" if "ok" in o else o["err"].split(":")[0]), "packet_data_" + case["data_kind"],
+                "packet_content_" + case.get("content", "random"),
                 "packet_cmd_" + case["cmd_kind"], "packet_style_" + case["style"])
         o = {k: v for k, v in o.items() if k != "detail"}
         if o != m:
@@ -1408,10 +1731,15 @@ def run(ctx):
                 ln = 1024 * k + d
                 if 512 <= ln < 32768:
                     cases.append(gen_history(rng, force_len=ln))
+                    h = gen_history(rng, force_len=ln)          # the same block count with structured content
+                    h["calls"][0]["image"] = structured(rng, ln)
+                    cases.append(h)
     for _ in range(n):
         cases.append(gen_history(rng))
     for _ in range(ctx.scale(30, 300) * (4 if ctx.extended else 1)):
         cases += gen_twins(rng)
+    for _ in range(ctx.scale(40, 600) * (4 if ctx.extended else 1)):
+        cases.append(gen_interleaved(rng))
     for which in ["fields", "options", "history"] + ([] if ctx.quick else ["fields", "options", "history"] * 2):
         cases.append(gen_scale(rng, which))
     for i in range(0, len(cases), 50):
